@@ -2,6 +2,7 @@ package dptc
 
 import (
 	"bytes"
+	"context"
 	"fmt"
 	"go/ast"
 	"go/parser"
@@ -16,6 +17,7 @@ import (
 	"sync"
 	"sync/atomic"
 	"testing"
+	"time"
 
 	"github.com/vapourismo/knx-go/knx/dpt"
 	"pgregory.net/rapid"
@@ -200,7 +202,36 @@ type c19Handle struct {
 func snapshot(d dpt.Datapoint) reflect.Value {
 	c := reflect.New(deref(d).Type()).Elem()
 	c.Set(deref(d))
+	ownMemory(c)
 	return c
+}
+
+// ownMemory gives a copied value its own backing memory (texts, slices): a snapshot that still pointed into memory the
+// original shares with somebody else would change together with it.
+func ownMemory(v reflect.Value) {
+	switch v.Kind() {
+	case reflect.String:
+		if v.CanSet() {
+			v.SetString(strings.Clone(v.String()))
+		}
+	case reflect.Slice:
+		if v.CanSet() && !v.IsNil() {
+			n := reflect.MakeSlice(v.Type(), v.Len(), v.Len())
+			reflect.Copy(n, v)
+			v.Set(n)
+			for i := 0; i < v.Len(); i++ {
+				ownMemory(v.Index(i))
+			}
+		}
+	case reflect.Struct:
+		for i := 0; i < v.NumField(); i++ {
+			ownMemory(v.Field(i))
+		}
+	case reflect.Array:
+		for i := 0; i < v.Len(); i++ {
+			ownMemory(v.Index(i))
+		}
+	}
 }
 
 func valEqual(a, b reflect.Value) bool {
@@ -219,10 +250,11 @@ type c19Addr struct {
 
 func c19History(ops []c19Op, addrs map[uintptr]c19Addr, mu *sync.Mutex, who string) *common.Fail {
 	var hs []*c19Handle
+	var rx []byte
 	checkAll := func(after string) *common.Fail {
 		for i, h := range hs {
 			if !valEqual(deref(h.d), h.want) {
-				return common.Failf("instance-changed", "%s: after %s, handle #%d (%s) holds %v but nothing was decoded into it since it held %v",
+				return common.Failf("instance-changed", "%s: after %s, handle #%d (%s) holds %#v but nothing was decoded into it since it held %#v",
 					who, after, i, h.name, deref(h.d).Interface(), h.want.Interface())
 			}
 			if !bytes.Equal(h.enc, h.encCopy) {
@@ -265,11 +297,22 @@ func c19History(ops []c19Op, addrs map[uintptr]c19Addr, mu *sync.Mutex, who stri
 			}
 			h := hs[((op.H%len(hs))+len(hs))%len(hs)]
 			before := snapshot(h.d)
-			if err := h.d.Unpack(unhx(op.Hex)); err != nil {
+			// every history decodes out of its one receive buffer, as a receive loop does: what an instance holds must
+			// not change when the buffer receives the next payload (for another instance, or garbage)
+			pl := unhx(op.Hex)
+			if cap(rx) < len(pl) {
+				rx = make([]byte, len(pl), len(pl)+64)
+			}
+			rx = rx[:len(pl)]
+			copy(rx, pl)
+			if err := h.d.Unpack(rx); err != nil {
 				// a failed decode may leave the target partially written (not part of this property): resync
 				_ = before
 			}
 			h.want = snapshot(h.d)
+			for i := range rx {
+				rx[i] ^= 0x5a
+			}
 			h.enc = h.d.Pack()
 			h.encCopy = append([]byte{}, h.enc...)
 			what += fmt.Sprintf(" into %s", h.name)
@@ -533,7 +576,9 @@ func c19ColdStarts(n int) (*common.Fail, int) {
 		go func() {
 			sem <- struct{}{}
 			defer func() { <-sem }()
-			cmd := exec.Command(os.Args[0], "-test.run", "^TestC19ColdChild$", "-test.count", "1")
+			ctx, cancel := context.WithTimeout(context.Background(), 2*time.Minute)
+			defer cancel()
+			cmd := exec.CommandContext(ctx, os.Args[0], "-test.run", "^TestC19ColdChild$", "-test.count", "1")
 			cmd.Env = append(os.Environ(), "VERIF_C19_COLD=1")
 			out, err := cmd.CombinedOutput()
 			ch <- res{string(out), err}
